@@ -1,7 +1,7 @@
 """C04 - updating a Sid by query or get_with is all-or-nothing and never guesses"""
 from ..rules import exc, sidops, mutation, config
 
-DECIDES = ("apply_query's returns are all-new (after dict_to_type(all=True), formatted with the returned type) or all-old with the query text kept; the decision table (one type / none / several with or without the old one / search seen in string+query) (R-RET3); update works on a copy and honours the '~' prefix (R-UPDATE); get_with: copy, key/value merged before the None-removal, total removal, overlay, Sid(fields=copy) (R-GETWITH); the rebuilt Sid's fields are resolved with the stored type (R-TRIPLE); totality of get_with (R-EXC). Also: the '?query' is put aside before the 'type:' prefix is looked for and the prefix forces its template (R-FIRST).")
+DECIDES = ("apply_query's returns are all-new (after dict_to_type(all=True), formatted with the returned type) or all-old with the query text kept; the decision table (one type / none / several with or without the old one / search seen in string+query) (R-RET3); update works on a copy and honours the '~' prefix (R-UPDATE); get_with: copy, key/value merged before the None-removal, total removal, overlay, Sid(fields=copy) (R-GETWITH); the rebuilt Sid's fields are resolved with the stored type (R-TRIPLE); totality of get_with (R-EXC). Also: the '?query' is put aside before the 'type:' prefix is looked for and the prefix forces its template (R-FIRST). No dead key_patterns entry (R-DEADPATTERN), value-disjoint types with identical keys (R-KEYSETDISJ), verbatim query codec (R-QUERYROUTE); the string fallback of get_with stays unreachable.")
 DOES_NOT_DECIDE = 'which type the overlaid fields resolve to for concrete values'
 
 
@@ -15,4 +15,7 @@ def rules(ctx, tier):
         lambda: mutation.rule_esc(ctx),
         lambda: mutation.rule_mut(ctx),
         lambda: config.rule_first(ctx),
+        lambda: config.rule_deadpattern(ctx),
+        lambda: config.rule_keysetdisj(ctx),
+        lambda: sidops.rule_queryroute(ctx),
     ]
